@@ -1,7 +1,8 @@
 //! C06 correspondence: the real `vector_engine::VectorEngine` (default + named collections,
-//! metadata filters, every metric, cached HNSW index) against the Lean model `drv_vec`,
-//! plus property oracles evaluated on the engine's own outputs against a brute-force
-//! computation done here in exact integer arithmetic.
+//! metadata filters and updates, batch stores, pagination, every metric, cached HNSW index) and
+//! the real `tensor_store::HNSWIndex` (stream `hnsw`: insert by insert, search by search, node id
+//! for node id) against the Lean model `drv_vec`, plus property oracles evaluated on the engine's
+//! own outputs against a brute-force computation done here in exact integer arithmetic.
 //!
 //! Vectors are integer valued (|x| <= 64, dim <= 16): every f32 product / sum the engine
 //! performs is then exact, and the remaining rounded operations (sqrt, one multiply, one
@@ -1823,7 +1824,7 @@ fn hmetric_name(m: HNSWDistanceMetric) -> &'static str {
 /// pruned and several layers exist with a few dozen nodes) against the model graph, insert by
 /// insert and search by search.  The distances the model is given are the ones the real index
 /// computes (`EmbeddingStorage::distance_dense`, public), as order keys.
-fn hnsw_case(rep: &mut Report, m: &mut Model, r: &mut Rng, directed: Option<(&str, Vec<Vec<i64>>, Vec<(Vec<i64>, usize, usize)>, (usize, usize, usize, f64), HNSWDistanceMetric)>) {
+fn hnsw_case(rep: &mut Report, m: &mut Model, r: &mut Rng, big: bool, directed: Option<(&str, Vec<Vec<i64>>, Vec<(Vec<i64>, usize, usize)>, (usize, usize, usize, f64), HNSWDistanceMetric)>) {
     let stream = if directed.is_some() { "hnsw.directed" } else { "hnsw" };
     let directed_case = directed.is_some();
     let (vecs, queries, (cm, cm0, efc, ml), metric, label): (Vec<Vec<i64>>, Vec<(Vec<i64>, usize, usize)>, (usize, usize, usize, f64), HNSWDistanceMetric, String) = match directed {
@@ -1839,6 +1840,7 @@ fn hnsw_case(rep: &mut Report, m: &mut Model, r: &mut Rng, directed: Option<(&st
             let n = match r.below(4) {
                 0 => 1 + r.below(4) as usize,
                 1 => 5 + r.below(10) as usize,
+                _ if big && r.chance(1, 3) => 40 + r.below(100) as usize,
                 _ => 10 + r.below(35) as usize,
             };
             let mut vecs: Vec<Vec<i64>> = Vec::new();
@@ -1978,15 +1980,16 @@ fn hnsw_stream(rep: &mut Report, m: &mut Model, root: &Rng, scale: u64) {
     // directed: points on a line with m = m0 = 1 (every list is pruned to one neighbour, the
     // layer-0 graph falls apart into pairs: the approximate answer misses the true nearest) ...
     let line: Vec<Vec<i64>> = (0..12).map(|i| vec![i * 5 - 30, 1]).collect();
-    hnsw_case(rep, m, &mut r, Some(("line-pruned", line.clone(), vec![(vec![-30, 1], 3, 1), (vec![25, 1], 2, 2), (vec![0, 1], 50, 50)], (1, 1, 1, 0.0), HNSWDistanceMetric::Euclidean)));
+    hnsw_case(rep, m, &mut r, false, Some(("line-pruned", line.clone(), vec![(vec![-30, 1], 3, 1), (vec![25, 1], 2, 2), (vec![0, 1], 50, 50)], (1, 1, 1, 0.0), HNSWDistanceMetric::Euclidean)));
     // ... the same points with the default configuration (exhaustive beam: exact)
-    hnsw_case(rep, m, &mut r, Some(("line-default", line, vec![(vec![-30, 1], 3, 1), (vec![25, 1], 2, 2), (vec![0, 1], 50, 50)], (16, 32, 200, 1.0 / 16f64.ln()), HNSWDistanceMetric::Euclidean)));
+    hnsw_case(rep, m, &mut r, false, Some(("line-default", line, vec![(vec![-30, 1], 3, 1), (vec![25, 1], 2, 2), (vec![0, 1], 50, 50)], (16, 32, 200, 1.0 / 16f64.ln()), HNSWDistanceMetric::Euclidean)));
     // ... all vectors equal / all distances tied (heap order decides everything)
-    hnsw_case(rep, m, &mut r, Some(("all-tied", vec![vec![1, 1]; 9], vec![(vec![1, 1], 4, 2), (vec![2, 2], 50, 3)], (2, 2, 2, 1.0), HNSWDistanceMetric::Cosine)));
+    hnsw_case(rep, m, &mut r, false, Some(("all-tied", vec![vec![1, 1]; 9], vec![(vec![1, 1], 4, 2), (vec![2, 2], 50, 3)], (2, 2, 2, 1.0), HNSWDistanceMetric::Cosine)));
     // ... zero vectors (cosine distance 1.0 by convention) among real ones, many layers
-    hnsw_case(rep, m, &mut r, Some(("zeros-multilayer", vec![vec![0, 0], vec![1, 0], vec![0, 0], vec![0, 1], vec![1, 1], vec![-1, 0], vec![0, 0], vec![2, 1]], vec![(vec![1, 0], 3, 2), (vec![0, 1], 8, 1)], (2, 4, 3, 2.0), HNSWDistanceMetric::Cosine)));
-    for _ in 0..60 * scale {
-        hnsw_case(rep, m, &mut r, None);
+    hnsw_case(rep, m, &mut r, false, Some(("zeros-multilayer", vec![vec![0, 0], vec![1, 0], vec![0, 0], vec![0, 1], vec![1, 1], vec![-1, 0], vec![0, 0], vec![2, 1]], vec![(vec![1, 0], 3, 2), (vec![0, 1], 8, 1)], (2, 4, 3, 2.0), HNSWDistanceMetric::Cosine)));
+    // thorough tier: three times as many cases per unit of scale, a third of them with up to 140 nodes
+    for _ in 0..60 * scale * if scale > 1 { 3 } else { 1 } {
+        hnsw_case(rep, m, &mut r, scale > 1, None);
     }
 }
 
@@ -2055,6 +2058,65 @@ fn observe_namespaces(rep: &mut Report) {
             rep.hit(if ok { "explicit_index.shape_ok" } else { "explicit_index.shape_BAD" });
         }
     }
+}
+
+
+/// Outside the quantifier (the property speaks of operation SEQUENCES): two real threads under the
+/// deterministic scheduler.  `build_and_cache_index` reads the vectors, builds, then caches, without
+/// holding anything across the three steps; a store that runs (and invalidates the not-yet-existing
+/// cache entry) between the read and the caching leaves an index of the OLD data in the cache, and
+/// nothing invalidates it until the next write.
+fn observe_concurrent_build(rep: &mut Report) {
+    let eng = Arc::new(VectorEngine::new());
+    eng.store_embedding("a", vec![1.0, 0.0, 0.0]).ok();
+    eng.store_embedding("b", vec![0.0, 1.0, 0.0]).ok();
+    let (e1, e2) = (eng.clone(), eng.clone());
+    let tasks: Vec<Box<dyn FnOnce() + Send>> = vec![
+        Box::new(move || {
+            e1.build_and_cache_index(HNSWConfig::default()).ok();
+        }),
+        Box::new(move || {
+            e2.store_embedding("a", vec![0.0, 0.0, 1.0]).ok();
+            e2.store_embedding("b", vec![0.0, 0.0, -1.0]).ok();
+        }),
+    ];
+    // thread 0 (the builder) runs until it has read one vector and is about to read the other;
+    // then thread 1 (the writer) runs to completion; then the builder finishes and caches
+    let mut builder_gets = 0usize;
+    let mut writer_turn = false;
+    let trace = nverif::sched::run_threads(tasks, move |_, parked| {
+        let b = parked.iter().position(|p| p.0 == 0);
+        let w = parked.iter().position(|p| p.0 == 1);
+        if !writer_turn {
+            if let Some(bi) = b {
+                if parked[bi].1 == "store.get" {
+                    if builder_gets >= 1 {
+                        writer_turn = true;
+                    } else {
+                        builder_gets += 1;
+                        return bi;
+                    }
+                } else {
+                    return bi;
+                }
+            }
+        }
+        w.or(b).unwrap_or(0)
+    });
+    let now_a = eng.get_embedding("a").ok();
+    let now_b = eng.get_embedding("b").ok();
+    let via_cache = conv(eng.search_similar(&[0.0, 0.0, 1.0], 2));
+    eng.invalidate_hnsw_cache("_default");
+    let exact = conv(eng.search_similar(&[0.0, 0.0, 1.0], 2));
+    rep.observe(json!({
+        "what": "thread 0: build_and_cache_index; thread 1: store a [0,0,1], store b [0,0,-1]; schedule: builder reads one vector, writer runs to completion, builder reads the other vector, builds and caches. Afterwards (no thread running) search_similar([0,0,1], 2) with the cache and after invalidating it",
+        "class_if_judged": "vector_engine.build_and_cache_index/stale_after_concurrent_store",
+        "schedule": trace.iter().map(|s| format!("{}:{}:{}", s.thread, s.site, s.key)).collect::<Vec<_>>(),
+        "stored_now": format!("a={now_a:?} b={now_b:?}"),
+        "search_with_cache": format!("{via_cache:?}"),
+        "search_after_invalidate": format!("{exact:?}"),
+        "stale_index_consulted": via_cache != exact,
+    }));
 }
 
 // ------------------------------------------------------------------ bit-pattern round trip
@@ -2162,6 +2224,7 @@ fn main() {
     hnsw_stream(&mut rep, &mut m, &root, scale);
     observe_foreign_index(&mut rep);
     observe_namespaces(&mut rep);
+    observe_concurrent_build(&mut rep);
 
     rep.expected_branches = [
         "model.ranked", "model.index", "model.ann", "model.zero", "model.err", "repr.dense", "repr.sparse", "err.dim_mismatch", "err.not_found", "err.empty_vector", "err.invalid_top_k", "err.coll_exists",
